@@ -6,7 +6,7 @@ V = os.path.dirname(os.path.dirname(os.path.abspath(__file__)))
 sys.path.insert(0, V)
 from rules import facts, mir
 from rules.registry import PROPS, RULES
-from tools.selftest import make_copy
+from tools.selftest import make_copy, KNOWN_KEYS
 
 paths = sys.argv[1:] or sorted(glob.glob(os.path.join(V, "preserving", "_mutants", "*.diff")))
 missed = 0
@@ -35,7 +35,7 @@ for patch in paths:
                     except Exception as e:
                         cache[rid] = []
                 for x in cache[rid]:
-                    if x["verdict"] == "violation" and (sel is None or sel(x)):
+                    if x["verdict"] == "violation" and (sel is None or sel(x)) and (pid, x["key"]) not in KNOWN_KEYS:
                         hits.setdefault(pid, x["key"])
         if hits:
             print("%-28s DETECTED %s" % (os.path.basename(patch), "; ".join("%s %s" % (k, v.split(":")[0] + ":" + v.split(":")[-1]) for k, v in sorted(hits.items()))[:150]))
